@@ -79,10 +79,16 @@ def canon(x, depth=0):
         return _num(x)
     if isinstance(x, BaseException):
         return ["exc", type(x).__name__]
+    if isinstance(x, np.ndarray) and KEEP_ORDER[0]:
+        # snapshot mode (O2): also what a result comparison deliberately ignores
+        base = ["arr", list(x.shape), [canon(e, depth + 1) if x.dtype == object else _num(e) for e in x.ravel().tolist()]]
+        return base + [str(x.dtype), bool(x.flags.writeable)]
     if isinstance(x, np.ndarray):
         if x.dtype == object:
             return ["arr", list(x.shape), [canon(e, depth + 1) for e in x.ravel().tolist()]]
         return ["arr", list(x.shape), [_num(e) for e in x.ravel().tolist()]]
+    if isinstance(x, tuple) and KEEP_ORDER[0]:
+        return ["tuple"] + [canon(e, depth + 1) for e in x]
     if isinstance(x, (list, tuple)):
         return [canon(e, depth + 1) for e in x]
     if isinstance(x, dict):
